@@ -166,10 +166,24 @@ U+001C..U+001F, which `str.strip()` does remove, are not skipped (`int("5\x1f")`
 def isIntSpace (c : Char) : Bool := Py.isSpace c && !(28 ≤ c.toNat && c.toNat ≤ 31)
 def intStrip (s : Str) : Str := Py.rstripBy isIntSpace (s.dropWhile isIntSpace)
 
+/-- value of a Unicode decimal digit (`unicodedata.decimal`): the regenerated runs of ten -/
+def decimalVal? (c : Char) : Option Nat :=
+  let n := c.toNat
+  match Gen.Http.decimalZeros.find? (fun z => z ≤ n && n < z + 10) with
+  | some z => some (n - z)
+  | none => (Gen.Http.decimalStray.find? (fun p => p.1 == n)).map (·.2)
+
+/-- `_PyUnicode_TransformDecimalAndSpaceToASCII`, the digit half: `int()` / `float()` first turn every
+Unicode decimal digit (Devanagari, Arabic-Indic, full-width, ...) into its ASCII digit -/
+def toAsciiDecimal (s : Str) : Str :=
+  s.map fun c => match decimalVal? c with
+    | some d => Char.ofNat (48 + d)
+    | none => c
+
 /-- `int(s)` for text: whitespace stripped, optional sign, decimal digits with `_` separators.
-Exact for latin-1 text (the only decimal digits below U+0100 are ASCII, by the generated table). -/
+Digits of every script are accepted (generated table of all Unicode decimal digits). -/
 def pyInt (s : Str) : Except String Int :=
-  let sb := signSplit2 (intStrip s)
+  let sb := signSplit2 (intStrip (toAsciiDecimal s))
   match intBody? sb.2 with
   | some ds => .ok (if sb.1 then - (digitsVal ds : Int) else (digitsVal ds : Int))
   | none => .error "ValueError"
